@@ -198,7 +198,9 @@ def scenario(k: Kernel, plan, obs):
                                                       FunctorWorkerFactory)
     ctx = SimContext(k, pipe_delay=plan["pipe_delay"])
     obs["ctx"] = ctx
+    import windpyutils.buffers as buffers_mod
     opp.threading = ThreadingShim(k)
+    buffers_mod.threading = opp.threading
     patch_threading(k)
     rec = Recorder(k)
     obs["rec"] = rec
